@@ -3,3 +3,7 @@
 pub mod common;
 mod h_nextafter;
 mod h_cf;
+mod h_ord;
+mod h_int;
+mod h_disp;
+mod h_div;
